@@ -66,7 +66,7 @@ func (j *c05Judge) visit(acc *dtAcc, vr *dtVariant, v *dtVal, _ bool) {
 		j.viol("panic|"+enc.panic.Frame, vr, v, "", fmt.Sprintf("Bytes(%s) panicked: %s", dtDescribe(v), enc.panic.Value), "value", nil)
 	case enc.err != nil:
 		acc.counts["encode_refused/"+vr.Name]++
-		j.c.R.SetAdd("encode_refusals", vr.Name+": "+dtTrimErr(enc.err))
+		j.viol("encode|refused", vr, v, reg, fmt.Sprintf("Bytes(%s) returns an error for a value of the type's domain: %s", dtDescribe(v), dtTrimErr(enc.err)), "value", nil)
 	case v.K == dkDec:
 		neg, mag, derr := refdata.DecodeNumeric(enc.bs)
 		switch {
@@ -421,7 +421,6 @@ func runC05(c *Ctx) {
 		"DATETIME day range 1753-01-01..9999-12-31, DATE 0001-01-01..9999-12-31, ticks < 25 920 000, minutes < 1440 are what a conforming server accepts",
 		"GoValue of 1/300 s bytes is judged to the tick (the library delivers whole milliseconds)",
 		"asetime.Epoch1753() carries a time part (09:09:09.000000009); only its date is judged, the helper is not used by the codec",
-		"types for which Bytes returns an error are counted (encode_refused/*), not judged",
 	}
 	if !dtCommonSetup(c) {
 		return
